@@ -1,0 +1,120 @@
+//go:build verif
+
+package ast
+
+// Well-formedness invariants of AST nodes (the fields that printers and the evaluator
+// dereference unconditionally; interface-typed children are never typed nil pointers).
+// Checked/assumed by /verif/bin/plushvc. Comment-only.
+
+//@ pred wfx(e any) = e == nil || pay(e) != 0
+//@ pred nnx(e any) = e != nil && pay(e) != 0
+//@ pred wfxs(s []Expression) = forall i int :: 0 <= i && i < len(s) ==> wfx(s[i])
+
+// Unconditional halves: what the String() printers dereference (the parser prints every statement,
+// also after syntax errors). evalphase() halves: what only the evaluator dereferences; they hold for
+// programs that parsed without error (assumption U4).
+
+//@ typeinv (n *IfExpression) = nnx(n.Condition) && n.Block != nil && forall i int :: 0 <= i && i < len(n.ElseIf) ==> n.ElseIf[i] != nil
+//@ typeinv (n *ElseIfExpression) = nnx(n.Condition) && n.Block != nil
+//@ typeinv (n *ForExpression) = nnx(n.Iterable) && (evalphase() ==> n.Block != nil)
+//@ typeinv (n *FunctionLiteral) = n.Block != nil && forall i int :: 0 <= i && i < len(n.Parameters) ==> n.Parameters[i] != nil
+//@ typeinv (n *CallExpression) = nnx(n.Function) && wfx(n.Callee) && wfx(n.ChainCallee) && wfxs(n.Arguments)
+//@ typeinv (n *LetStatement) = wfx(n.Value) && (evalphase() ==> n.Name != nil)
+//@ typeinv (n *AssignExpression) = wfx(n.Value) && (evalphase() ==> n.Name != nil)
+//@ typeinv (n *IndexExpression) = nnx(n.Left) && nnx(n.Index) && wfx(n.Value) && wfx(n.Callee)
+//@ typeinv (n *InfixExpression) = wfx(n.Left) && wfx(n.Right)
+//@ typeinv (n *PrefixExpression) = wfx(n.Right)
+//@ typeinv (n *ReturnStatement) = wfx(n.ReturnValue)
+//@ typeinv (n *ExpressionStatement) = wfx(n.Expression)
+//@ typeinv (n *ArrayLiteral) = forall i int :: 0 <= i && i < len(n.Elements) ==> nnx(n.Elements[i])
+//@ typeinv (n *HashLiteral) = n.Pairs != nil && (forall i int :: 0 <= i && i < len(n.Order) ==> nnx(n.Order[i]) && has(n.Pairs, n.Order[i]) && nnx(n.Pairs[n.Order[i]])) &&
+//@     (forall k Expression :: has(n.Pairs, k) ==> nnx(k) && wfx(n.Pairs[k]))
+//@ typeinv (n *BlockStatement) = forall i int :: 0 <= i && i < len(n.Statements) ==> nnx(n.Statements[i])
+//@ typeinv (n *Program) = forall i int :: 0 <= i && i < len(n.Statements) ==> nnx(n.Statements[i])
+
+//@ iface ast.Node.String(n) r
+//@ requires pay(n) != 0
+//@ assigns nothing
+//@ iface ast.Node.TokenLiteral(n) r
+//@ requires pay(n) != 0
+//@ assigns nothing
+//@ iface ast.Node.T(n) r
+//@ requires pay(n) != 0
+//@ assigns nothing
+
+// ---- C03: the String/InnerText methods are nil-safe given the invariants above ----
+
+//@ func (al *ArrayLiteral) String
+//@ assigns nothing
+
+//@ func (ae *AssignExpression) String
+//@ assigns nothing
+
+//@ func (bs *BlockStatement) InnerText
+//@ assigns nothing
+
+//@ func (bs *BlockStatement) String
+//@ assigns nothing
+
+//@ func (b *Boolean) String
+//@ assigns nothing
+
+//@ func (ce *BreakExpression) String
+//@ assigns nothing
+
+//@ func (ce *CallExpression) String
+//@ assigns nothing
+
+//@ func (ce *ContinueExpression) String
+//@ assigns nothing
+
+//@ func (es *ExpressionStatement) String
+//@ assigns nothing
+
+//@ func (il *FloatLiteral) String
+//@ assigns nothing
+
+//@ func (fe *ForExpression) String
+//@ assigns nothing
+
+//@ func (fl *FunctionLiteral) String
+//@ assigns nothing
+
+//@ func (hl *HashLiteral) String
+//@ assigns nothing
+
+//@ func (hl *HTMLLiteral) String
+//@ assigns nothing
+
+//@ func (i *Identifier) String
+//@ assigns nothing
+
+//@ func (ie *IfExpression) String
+//@ assigns nothing
+
+//@ func (ie *IndexExpression) String
+//@ assigns nothing
+
+//@ func (oe *InfixExpression) String
+//@ assigns nothing
+
+//@ func (il *IntegerLiteral) String
+//@ assigns nothing
+
+//@ func (ls *LetStatement) String
+//@ assigns nothing
+
+//@ func (pe *PrefixExpression) String
+//@ assigns nothing
+
+//@ func (p *Program) InnerText
+//@ assigns nothing
+
+//@ func (p *Program) String
+//@ assigns nothing
+
+//@ func (rs *ReturnStatement) String
+//@ assigns nothing
+
+//@ func (sl *StringLiteral) String
+//@ assigns nothing
